@@ -192,6 +192,8 @@ def dict_battery(tier, rng):
                 k += 1
     for lcp in (126, 127, 128, 129) + ((16383, 16384) if thorough else ()):
         out.append(("g3lcp%d" % lcp, gen.g3_lcp_chain(r, lcp, 3)))
+    for lcp in (126, 127, 128, 129) + ((255, 16383, 16384) if thorough else ()):
+        out.append(("g3fence%d" % lcp, gen.g3_lcp_fence(r, lcp)))
     for (n, kl, tl) in ((12, 4, 40), (20, 3, 220)) + (((40, 5, 220), (64, 2, 33), (33, 6, 700)) if thorough else ()):
         out.append(("g3tail%d_%d" % (n, tl), gen.g3_common_tail(r, n, kl, tl)))
     for kk in (1, 2, 5):
@@ -536,7 +538,8 @@ def c02_streams(tier, rng):
                     ops += [["pre", hx(q[:20])] for q in foreign[:5]]
                 lc.append(("c2l_%s_%d_%s" % (kind, pv["b"], ph), "dict", kind, pv, S, ops))
     return base + [StreamSet("longcodes", "asan", lc, timeout=120),
-                   StreamSet("huffman-keys", "asan", hhf_cases(tier, rng, 20 if tier == "thorough" else 8), phase2=hhf_phase2, timeout=60)]
+                   StreamSet("huffman-keys", "asan", hhf_cases(tier, rng, 20 if tier == "thorough" else 8), phase2=hhf_phase2, timeout=60),
+                   StreamSet("fm-layer", "asan", fm_cases(tier, rng, 24 if tier == "thorough" else 6), phase2=fm_phase2, timeout=90)]
 
 
 PROPS["C02"] = PropSpec(c02_streams,
@@ -561,13 +564,19 @@ def c03_streams(tier, rng):
             for ph, pre in (("b", []), ("l", [["reload", "own", 1]])):
                 lc.append(("c3l_%s_%d_%s" % (kind, b, ph), "dict", kind, {"b": b}, LS, pre + ops))
     return [StreamSet("order", "asan", main), StreamSet("xbwrank", "asan", k6), StreamSet("longcodes", "asan", lc, timeout=120),
-            StreamSet("rpdac-layer", "asan", rpdac_cases(tier, rng, 30 if tier == "thorough" else 10), phase2=rpdac_phase2, timeout=60)]
+            StreamSet("rpdac-layer", "asan", rpdac_cases(tier, rng, 30 if tier == "thorough" else 10), phase2=rpdac_phase2, timeout=60),
+            StreamSet("fm-layer", "asan", fm_cases(tier, rng, 24 if tier == "thorough" else 6), phase2=fm_phase2, timeout=90)]
 
 
 PROPS["C03"] = PropSpec(c03_streams,
                         _RULE % "extract(i) for IDs, locate of members, locateRank/extractRank for ranks",
                         _PART, "IDs of order-preserving kinds are lexicographic ranks (corollary of the refinement theorems)", _ASSUME)
-PROPS["C04"] = PropSpec(simple_dict_prop(c04_ops, PREFIX_KINDS, "prefix", phases=("built", "loaded", "loaded2"), scale="scale_ops_prefix"),
+def c04_streams(tier, rng):
+    base = simple_dict_prop(c04_ops, PREFIX_KINDS, "prefix", phases=("built", "loaded", "loaded2"), scale="scale_ops_prefix")(tier, rng)
+    return base + [StreamSet("fm-layer", "asan", fm_cases(tier, rng, 24 if tier == "thorough" else 6), phase2=fm_phase2, timeout=90)]
+
+
+PROPS["C04"] = PropSpec(c04_streams,
                         _RULE % "patterns: prefixes of members, one-byte extensions, members, longer than every member, below/above all members",
                         _PART, "prefix search equals the contiguous specification range", _ASSUME)
 def c05_streams(tier, rng):
@@ -723,7 +732,8 @@ def c14_streams(tier, rng):
         op = "loc" if kind in EXACT_ID_KINDS else "rt"
         qs = [[op, hx(x)] for x in probe]
         lc.append(("hl_%s" % kind, "dict", kind, pv, S, qs + qs + list(reversed(qs)) + [["exts"]] + qs))
-    return [StreamSet("histories", "asan", cases), StreamSet("reordered", "asan", cases2), StreamSet("longcodes", "asan", lc, timeout=120)]
+    return [StreamSet("histories", "asan", cases), StreamSet("reordered", "asan", cases2), StreamSet("longcodes", "asan", lc, timeout=120),
+            StreamSet("scale", "asan", scale_cases(tier, rng, scale_ops_history, kinds=["RPDAC", "RPFC", "RPHTFC", "HASHRPF", "HASHRPDAC", "BLOCKS", "HTFC"], phases=("built",)), timeout=600)]
 
 
 def c07_streams(tier, rng):
@@ -1069,6 +1079,19 @@ def scale_ops_roundtrip(kind, pv, S, r):
         ops += [["ext", i] for i in [1, 2, n - 1, n] + [r.range(1, n) for _ in range(60)]]
         ops += [["loc", hx(s)] for s in r.sample(S, 40)]
     return ops
+
+
+def scale_ops_history(kind, pv, S, r):
+    """A long history on ONE large object (grammars above 2^12 rules, tables above 2^16 slots): a run of
+    extractions / round trips, the same run backwards, and again forwards; a table summary in between.
+    Every answer is compared with the history-free specification."""
+    n = len(S)
+    ids = sorted(set([1, 2, n - 1, n] + [r.range(1, n) for _ in range(400)]))
+    if kind in ORDERED_KINDS:
+        run = [["ext", i] for i in ids]
+    else:
+        run = [["rt", hx(S[i - 1])] for i in ids[:200]]
+    return run + list(reversed(run)) + [["tabh"]] + run[::3]
 
 
 def scale_ops_absent(kind, pv, S, r):
